@@ -135,3 +135,74 @@ func Rel(p string) string {
 	}
 	return strings.TrimPrefix(p, "/")
 }
+
+var (
+	nameMu    sync.Mutex
+	nameCache = map[string]string{}
+)
+
+// StdPkgName returns the package name declared by the sources of a standard-library import path
+// (read from the package clauses under GOROOT/src, independent of dst), or "" if unknown.
+func StdPkgName(path string) string {
+	nameMu.Lock()
+	defer nameMu.Unlock()
+	if n, ok := nameCache[path]; ok {
+		return n
+	}
+	name := ""
+	root, _ := filepath.EvalSymlinks(filepath.Join(goroot(), "src"))
+	for _, dir := range []string{filepath.Join(root, path), filepath.Join(root, "vendor", path), filepath.Join(root, "cmd", "vendor", path)} {
+		ents, err := os.ReadDir(dir)
+		if err != nil {
+			continue
+		}
+		for _, e := range ents {
+			if e.IsDir() || !strings.HasSuffix(e.Name(), ".go") || strings.HasSuffix(e.Name(), "_test.go") {
+				continue
+			}
+			f, err := parser.ParseFile(token.NewFileSet(), filepath.Join(dir, e.Name()), nil, parser.PackageClauseOnly)
+			if err != nil || f.Name == nil || f.Name.Name == "main" && name != "" {
+				continue
+			}
+			// ignore files excluded by "//go:build ignore"
+			b, _ := os.ReadFile(filepath.Join(dir, e.Name()))
+			if bytes.Contains(b, []byte("//go:build ignore")) {
+				continue
+			}
+			name = f.Name.Name
+			break
+		}
+		if name != "" {
+			break
+		}
+	}
+	nameCache[path] = name
+	return name
+}
+
+// ImportNames returns path -> declared package name for every import of src whose name could be
+// established (std packages and "C" excluded); ok is false if some import is unknown.
+func ImportNames(src []byte) (map[string]string, bool) {
+	f, err := parser.ParseFile(token.NewFileSet(), "", src, parser.ImportsOnly)
+	if err != nil {
+		return nil, false
+	}
+	m := map[string]string{}
+	ok := true
+	for _, im := range f.Imports {
+		p := strings.Trim(im.Path.Value, "\"`")
+		if p == "C" || p == "unsafe" {
+			if p == "unsafe" {
+				m[p] = "unsafe"
+			}
+			continue
+		}
+		n := StdPkgName(p)
+		if n == "" {
+			ok = false
+			continue
+		}
+		m[p] = n
+	}
+	return m, ok
+}
